@@ -49,6 +49,39 @@ def check(ctx):
              "their node through `pending` (which always calls the reducer), not through `pending_noempty` — the decorator's "
              "affixes belong to the element, not to its content")
     ctx.guard("C16-G", rule_g)
+    ctx.rule("C16-H", "a block's prefix is attached as the decorator returned it: in append_subrender the string given to insert_front "
+             "comes from the prefix iterator through copies only (to_string / clone / into) — no trimming or other rewriting, "
+             "also not on blank lines")
+    ctx.guard("C16-H", rule_h)
+
+
+COPIES = ("to_string", "clone", "into", "to_owned", "from", "deref", "as_ref", "as_str", "borrow", "next", "unwrap", "expect")
+
+
+def rule_h(ctx):
+    F = ctx.facts
+    b = F.one(RTRAIT + "append_subrender")
+    n = 0
+    for cb in [b] + [c for _x, c in transitive_closures(F, b)]:
+        for bb, t in cb.calls(lambda cd, t: ends(cd, "TaggedLine::<T>::insert_front")):
+            n += 1
+            at = cb.atoms(t["args"][1])
+            calls = sorted({a[1].split("::")[-1] for a in at if a[0] == "call" and a[1]})
+            other = [c for c in calls if c not in COPIES]
+            ctx.check(not other, "C16-H", "append_subrender:prefix-verbatim", t["span"], cb.id,
+                      "the prefix is rewritten on its way to the line (%s): the decorator's string no longer appears as given" % other)
+            # and on every line: the insert does not depend on the line's content
+            conds = []
+            for (a, s2) in cb.cdeps_transitive(bb):
+                _neg, src = cb.switch_source(a)
+                if src and src[0] == "discr":
+                    continue
+                if src and src[0] == "call" and callee_method(src[1]) == "is_empty" and "str" in (callee_def(src[1]) or ""):
+                    continue  # an empty prefix needs no insertion
+                conds.append(cb.term(a)["span"])
+            ctx.check(not conds, "C16-H", "append_subrender:prefix-on-every-text-line", t["span"], cb.id,
+                      "the prefix is attached under a condition (%s)" % conds[:2])
+    ctx.floor("C16-H", "insert_front calls in append_subrender", n, 1)
 
 
 def rule_g(ctx):
